@@ -272,7 +272,7 @@ def assigned_engine(ex: ObjExec, cnt: Counter) -> MObj:
     for k, v in (("name", "O"), ("default_value", 0.0), ("minimum", 0.0), ("maximum", cnt.sym("hi")), ("lock_previous", True)):
         ex.store_attr(ov, k, v, E0)
     iv = C("InputVariable")
-    for k, v in (("name", "I"), ("minimum", cnt.sym("lo")), ("maximum", 0.0), ("enabled", False)):
+    for k, v in (("name", "I"), ("description", "  "), ("minimum", cnt.sym("lo")), ("maximum", 0.0), ("enabled", False)):  # a description of blanks is a description
         ex.store_attr(iv, k, v, E0)
     eng = C("Engine", load=False)
     ex.store_attr(eng, "name", "assigned", E0)
